@@ -16,7 +16,7 @@ THEOREMS = ['Otel.C02.' + t for t in (
     'worker_terminates_within', 'worker_terminates', 'rank2_decreases', 'join_enabled_when_done')] + ['Otel.Batch.reachable_inv', 'Otel.Batch.inv_astep', 'Otel.Batch.served_of_wcount', 'Otel.Batch.done_of_wcount']
 THEOREMS = THEOREMS + RD.THEOREMS_C02 + RD.THEOREMS_C02_LIVE
 HARNESSES = [B.H_BSP, B.H_BLP] + RD.HARNESSES
-SUBS = [importlib.import_module('props.' + n) for n in ('c02_fanout',) if os.path.exists(os.path.join(os.path.dirname(__file__), n + '.py'))]
+SUBS = [importlib.import_module('props.' + n) for n in ('c02_fanout', 'c02_mpflush') if os.path.exists(os.path.join(os.path.dirname(__file__), n + '.py'))]
 for _m in SUBS:
     LEAN_TARGETS = LEAN_TARGETS + list(_m.LEAN_TARGETS)
     THEOREMS = THEOREMS + list(_m.THEOREMS)
